@@ -151,11 +151,15 @@ def step (line : String) : String :=
     match ws.head?, parseImpl impl with
     | some op, some i =>
       let v := variantOf op
-      if op == "fetch" || op == "legacy-fetch" then
+      if op == "fetch" || op == "legacy-fetch" || op == "fetchx" || op == "legacy-fetchx" then
+        -- `fetchx`: the same round read after the batch's adjusted deadline has passed (`expired = true`): the round
+        -- must end with RequestTimedOut instead of io.EOF, everything else as for `fetch`
+        let expired := op.endsWith "fetchx"
         match fieldInt ws "o", fieldInt ws "hwm", fieldInt ws "cut", (field ws "L").bind parseLayout with
         | some o, some hwm, some cut, some items =>
-          let (d, off, r) := readAll v false o hwm (responseTokens items cut)
-          answer (showResult d off r.show) (fetchHolds items cut o hwm i)
+          let (d, off, r) := readAll v expired o hwm (responseTokens items cut)
+          let i' := if expired && i.out == "kafka7" then { i with out := "eof" } else i
+          answer (showResult d off r.show) (fetchHolds items cut o hwm i' && (!expired || i.out == "kafka7" || i.out == "unexpectedEOF"))
         | _, _, _, _ => "bad-op"
       else if op == "iter" || op == "legacy-iter" then
         match fieldInt ws "o", fieldInt ws "hwm", (field ws "budgets").bind (fun s => (s.splitOn ",").mapM (·.toNat?)),
